@@ -1,6 +1,6 @@
 """C14 component state determined by its tasks"""
 from .. import oracles as O
-from ..propkit import Kit
+from ..propkit import Kit, cutoff_ops
 
 
 def _oracle(S, b, trace):
@@ -23,5 +23,5 @@ def _tweak(rng, c):
             c["comps"][ci]["extra_tasks"] = rng.sample(cand, rng.choice([1, 1, min(2, len(cand))]))
 
 
-K = Kit("C14", _oracle, tweak=_tweak)
+K = Kit("C14", _oracle, tweak=_tweak, make_ops=cutoff_ops)
 eval_case, run, replay = K.eval_case, K.run, K.replay
